@@ -5,6 +5,7 @@ CONSTANTS
   Stems = {"def"}
   SupTpls = {FALSE, TRUE}
   NsVals = {FALSE}
+  Shapes = {"plain"}
   Wipes = FALSE
   PFiles = {"supU"}
   MaxLo = 0
@@ -15,6 +16,7 @@ CONSTANTS
   QuickOnly = FALSE
   FwdOmitToList = TRUE
   ListDeps = TRUE
+  OwnByPrefix = FALSE
   ListUserSup = FALSE
 INVARIANT RefinesInputs
 CHECK_DEADLOCK FALSE
